@@ -525,7 +525,14 @@ def vmt_read(text: str):
     return Material.parse(text)
 
 
+def _vmt_bare_special(text: str) -> bool:
+    """Does the written material hold a top-level parameter whose BARE name or value starts with / or # ?"""
+    import re
+    return any(re.match(r'^\t(?:[/#]|(?:"[^"]*"|[^\s"]+) [/#])', line) for line in text.splitlines()[2:])
+
+
 def classify_vmt(f: Failure) -> str:
+    text = (f.witness.get('output') if isinstance(f.witness, dict) else None) or ''
     if f.stage == 'compare':
         d = f.witness['diff']
         top = d['path'].split('/')[1] if '/' in d['path'] else ''
@@ -533,18 +540,11 @@ def classify_vmt(f: Failure) -> str:
         if top in ('blocks', 'proxies') and isinstance(want, str) and isinstance(got, str) \
                 and any(c in want for c in '\\\t\'') and len(got) > len(want):
             return 'vmt-block-strings-escaped-but-read-verbatim'
-        if top == 'params' and got == '<missing>' or (isinstance(got, str) and got.startswith('len ')):
-            # a parameter vanished: was its line swallowed as a comment?
-            text = f.witness.get('output') or ''
-            if any(l.strip()[:1] in '/#' or ' /' in l or ' #' in l for l in text.splitlines()[2:]):
-                return 'vmt-bare-string-special-first-char'
-        return 'vmt-field-mismatch:' + top
-    if f.stage == 'read' and ('Single slash found' in f.msg or 'Unexpected directive' in f.msg):
-        return 'vmt-bare-string-special-first-char'
-    if f.stage == 'read':
-        text = (f.witness or {}).get('output') or ''
-        if any(l.strip()[:1] in '/#' or ' /' in l or ' #' in l for l in text.splitlines()[2:]):
+        if top == 'params' and _vmt_bare_special(text):
             return 'vmt-bare-string-special-first-char'
+        return 'vmt-field-mismatch:' + top
+    if f.stage == 'read' and _vmt_bare_special(text):
+        return 'vmt-bare-string-special-first-char'
     return f'vmt-{f.stage}-failure'
 
 
